@@ -258,7 +258,22 @@ def _slither_solve(i):
     return is_sat, got
 
 
-register("slitherlink", _slither_gen, _slither_truth, _slither_solve)
+def _slither_check(i, got):
+    h, w, p = i["h"], i["w"], i["p"]
+    # the loop lives on the (h+1) x (w+1) point lattice; keys h{y},{x} / v{y},{x} as in frame_dict of that lattice
+    c = cycle_of(h + 1, w + 1, got)
+    if c is None:
+        return False
+    for y in range(h):
+        for x in range(w):
+            if p[y][x] >= 0:
+                sides = [((y, x), (y, x + 1)), ((y + 1, x), (y + 1, x + 1)), ((y, x), (y + 1, x)), ((y, x + 1), (y + 1, x + 1))]
+                if sum(1 for e in sides if e in c) != p[y][x]:
+                    return False
+    return True
+
+
+register("slitherlink", _slither_gen, _slither_truth, _slither_solve, _slither_check)
 
 
 # ======================================================================================= yajilin
@@ -1305,7 +1320,25 @@ def _bld_solve(i):
     return is_sat, grid_got(i["n"], i["n"], ans)
 
 
-register("building", _bld_gen, _bld_truth, _bld_solve)
+def _bld_check(i, got):
+    nn = i["n"]
+    up, dw, lf, rg = i["cl"]
+    g = [[got.get(f"{y},{x}") for x in range(nn)] for y in range(nn)]
+    if any(type(v) is not int for r in g for v in r):
+        return False
+    full = set(range(1, nn + 1))
+    if any(set(r) != full for r in g) or any({g[y][x] for y in range(nn)} != full for x in range(nn)):
+        return False
+    for k in range(nn):
+        col = [g[y][k] for y in range(nn)]
+        row = g[k]
+        if (up[k] >= 1 and _vis(col) != up[k]) or (dw[k] >= 1 and _vis(col[::-1]) != dw[k]) or \
+           (lf[k] >= 1 and _vis(row) != lf[k]) or (rg[k] >= 1 and _vis(row[::-1]) != rg[k]):
+            return False
+    return True
+
+
+register("building", _bld_gen, _bld_truth, _bld_solve, _bld_check)
 
 
 # ======================================================================================= doppelblock
@@ -1364,7 +1397,19 @@ def _db_solve(i):
     return is_sat, grid_got(i["n"], i["n"], ans)
 
 
-register("doppelblock", _db_gen, _db_truth, _db_solve)
+def _db_check(i, got):
+    nn = i["n"]
+    g = [[got.get(f"{y},{x}") for x in range(nn)] for y in range(nn)]
+    if any(type(v) is not int for r in g for v in r):
+        return False
+    want = sorted([0, 0] + list(range(1, nn - 1)))
+    if any(sorted(r) != want for r in g) or any(sorted(g[y][x] for y in range(nn)) != want for x in range(nn)):
+        return False
+    return all(i["row"][k] < 0 or _between(list(g[k])) == i["row"][k] for k in range(nn)) and \
+        all(i["col"][k] < 0 or _between([g[y][k] for y in range(nn)]) == i["col"][k] for k in range(nn))
+
+
+register("doppelblock", _db_gen, _db_truth, _db_solve, _db_check)
 
 
 # ======================================================================================= sudoku
@@ -1698,7 +1743,39 @@ def _five_solve(i):
     return is_sat, {f"e{k}": v.sol for k, v in enumerate(isb)}
 
 
-register("fivecells", _five_gen, _five_truth, _five_solve)
+def _five_check(i, got):
+    h, w, p = i["h"], i["w"], i["p"]
+    cells = [c for c in allc(h, w) if p[c[0]][c[1]] >= -1]
+    edges = _five_edges(i)
+    if any(got.get(f"e{k}") not in (True, False) for k in range(len(edges))):
+        return False
+    par = {c: c for c in cells}
+
+    def find(a):
+        while par[a] != a:
+            par[a] = par[par[a]]
+            a = par[a]
+        return a
+    for k, (a, b) in enumerate(edges):
+        if not got[f"e{k}"]:
+            par[find(a)] = find(b)
+    size = {}
+    for c in cells:
+        size[find(c)] = size.get(find(c), 0) + 1
+    if any(v != 5 for v in size.values()):
+        return False
+    # a border may not run inside one block
+    if any(got[f"e{k}"] and find(a) == find(b) for k, (a, b) in enumerate(edges)):
+        return False
+    for y, x in cells:
+        if p[y][x] >= 0:
+            sides = sum(1 for dy, dx in N4 if (y + dy, x + dx) not in par or find((y + dy, x + dx)) != find((y, x)))
+            if sides != p[y][x]:
+                return False
+    return True
+
+
+register("fivecells", _five_gen, _five_truth, _five_solve, _five_check)
 
 
 # ======================================================================================= shakashaka
